@@ -3,16 +3,29 @@ PROP = dict(
     pkg="c05", level="fault_enumeration",
     technique="fault-injection PBT: every committed write k of a generated operation script is turned into a crash point and into a failing commit; differential against fault-free reference nodes",
     level_text=("Fault enumeration per generated case: all commit indices (thorough) or a drawn subset (quick) x {crash image reopened by a fresh "
-                "Blockchain, injected commit error with the same object continuing}. Juno's grouping of effects into commits is what is enumerated; "
-                "the storage engine's own atomicity is trusted. TestPropPruneInterrupted enumerates the committed writes of PruneUpto the same way "
+                "Blockchain, injected commit error with the same object continuing}. Juno's grouping of effects into commits is what is enumerated. "
+                "On the in-memory store the batch is atomic by construction; about a fifth of the cases run on a real Pebble v2 store with a block whose "
+                "Store batch holds 7-15 MB (2-4 classes of 3.5-3.9 MB declared at once): there the fault wrapper only decides whether Batch.Write is "
+                "called, the batch itself is juno's pebblev2 batch, the crash image is a Pebble checkpoint of the real store (tables + WAL as on disk) "
+                "opened as a new store, and every fault point is additionally run as a crash on the way INTO the commit (batch complete, never "
+                "written) - so anything the store's batch implementation makes durable or visible before Write is in the image and in what the "
+                "same Blockchain object reads after a failed commit. Pebble's own WAL/recovery is trusted. "
+                "TestPropPruneInterrupted enumerates the committed writes of PruneUpto the same way "
                 "(crash image, failing write through the function, failing write under the real pruner service that shares its in-memory "
                 "retention floor with the Blockchain); the pruning policy itself is C16's."),
     rule=("scripts of 4-10 ops over store/revert/set-L1-head/persist-snapshot/graceful/ungraceful restart on both state backends, 12% on the 8188-block base "
           "(real window rollover; half of those follow a skeleton: stores reaching/crossing 8192, optional graceful restart, ungraceful restart, then the first "
-          "accesses of the lazily initialised running filter); fault points always include the first commit after the last restart and the stores of the "
-          "last/first block of a bloom window; after a failed store a drawn detour reverts and re-stores the head before the retry; non-trivial = fault inside a store or revert; distinct = SHA-256 of the op list (block hashes included). "
+          "accesses of the lazily initialised running filter); 22% on Pebble v2 with scripts of 3-7 ops in which the first or second store declares every "
+          "not yet declared one of 2-4 drawn large Sierra classes (3.5-3.9 MB each, valid program and class hashes; the generator also declares them "
+          "singly, deploys and migrates them like any class), largest commit of the case labelled <10 / 10-12 / >12 MiB; "
+          "fault points always include the first commit after the last restart, the stores of the "
+          "last/first block of a bloom window and the store of the large block (Pebble cases: plus one drawn, others: plus three drawn); on Pebble each "
+          "fault point runs as crash-after, crash-on-the-way-in (image must equal the chain before the op when k is the op's first commit) and failed commit; "
+          "the head state's view of the large classes (definition intact, CASM hashes) is part of every observation; "
+          "after a failed store a drawn detour reverts and re-stores the head before the retry; non-trivial = fault inside a store or revert; distinct = SHA-256 of the op list. "
           "Prune test: chains of 22-40 blocks, optional earlier prune, 1-byte or default batches, fault at every (quick: 4 drawn) committed write; "
           "non-trivial = fault strictly inside the prune."),
-    assumptions=["memory backend image = crash image (Pebble batch atomicity / WAL trusted)", "pruning policy (which floor is chosen) is exercised in C16, not here"],
+    assumptions=["memory backend image = crash image; on Pebble the image is a checkpoint of the real store (Pebble's WAL replay / recovery trusted)",
+                 "pruning policy (which floor is chosen) is exercised in C16, not here"],
     runs=[dict(run="^Test(Prop|Known)")],
 )
